@@ -1158,6 +1158,8 @@ def _infer_expr_type(
                 )
             )
 
+        if fname in {"abs", "max", "min"} and "float" in arg_types:
+            return "float"
         if fname in _BUILTIN_CALL_RETURN_TYPES:
             return _BUILTIN_CALL_RETURN_TYPES[fname]
 
